@@ -20,7 +20,7 @@ ASSUMPTIONS = [
     "reduction) at a hashed sample of bins and Parseval's identity with the bins the one-sided spectrum lacks computed directly",
     "requested n >= npts (padding, not truncation); records finite; drawn n 2..9000 (quick <= 2500), mid-range ladder 2 000..300 000 "
     "(thorough 2 000 000), giant 2^14..2^16 (+-) (thorough ..2^21); records are float64 arrays or int64 / list / non-contiguous / "
-    "negative-stride / read-only variants holding such values (narrow integer dtypes and float32 are handled centrally, not here)",
+    "negative-stride / read-only variants holding such values or int16 / int32 / int8 counts using the type's full range (gen.narrow_int); float32 is not generated here",
     "dt: log-uniform 1e-4..100, the repository's time steps, and python integers 1, 2, 5",
     "value tolerance per bin |dt| (1e-12 sum|x| + 8 eps log2(N) sqrt(N) ||x||_2): component-wise FFT bound c eps log2(N) sum|x| with "
     "c log2 N <= 4500, plus the norm-wise bound (Higham, Accuracy and Stability, thm 24.2) which dominates for heavily padded short "
@@ -119,7 +119,9 @@ class Rec(object):
         return abs(dt) * (1e-12 * self.sumabs + 8 * EPS * math.log2(max(2, N)) * math.sqrt(N) * self.norm2) + core.TINY
 
 
-def _container(spec, a0):
+def _container(spec, a0, narrow=None):
+    if narrow:
+        return Rec(*gen.narrow_int(a0, narrow))
     how = spec.get("as")
     if how == "int":
         top = float(np.max(np.abs(a0))) if len(a0) else 0.0
@@ -162,7 +164,7 @@ def _def_cases(draw):
     n = len(gen.build(spec))
     extra = draw(st.one_of(st.integers(0, 3), st.integers(0, n), st.integers(n, 7 * n)))
     return {"rec": spec, "dt": draw(_dts()), "p2": draw(st.integers(0, 3)), "n_req": n + extra, "acc": draw(st.booleans()),
-            "first": draw(st.sampled_from(_FIRST))}
+            "first": draw(st.sampled_from(_FIRST)), "narrow": draw(st.sampled_from([None, None, None, None, None, "int16", "int32", "int8"]))}
 
 
 def _freqs(pts, N, dt):
@@ -246,12 +248,13 @@ def _both_N(ctx, what, got_s, n, p2, Nr):
              "attributes read first; non-trivial = non-zero record; classes record whether N is odd / a power of two",
         oracle="reference model: dt * direct DFT of the zero-padded record, bins 0..N/2-1 at k/(N dt); object vs array level and Signal vs "
                "AccSignal within twice the value tolerance",
-        require={"N-odd": 0.15, "npts-not-pow2": 0.3})
+        require={"N-odd": 0.15, "npts-not-pow2": 0.3, "narrow=int16": 0.04})
 def definition(case, ctx):
-    rec = _container(case["rec"], gen.build(case["rec"]))
+    rec = _container(case["rec"], gen.build(case["rec"]), case.get("narrow"))
     n = rec.n
     dt = case["dt"]
     ctx.nt(bool(np.any(rec.x)))
+    ctx.cls("narrow=" + case["narrow"] if case.get("narrow") else None)
     ctx.cls(gen.size_class(n), "npts-pow2" if next_pow2(n) == n else "npts-not-pow2", "npts-odd" if n % 2 else "npts-even",
             "acc" if case["acc"] else "sig", "dt-int" if isinstance(dt, int) else None, "as=" + case["rec"]["as"] if case["rec"].get("as") else None)
     cls = eqsig.AccSignal if case["acc"] else eqsig.Signal
@@ -663,6 +666,8 @@ def _mid_container(a, how):
     if how == "int":
         arg = np.array(np.round(a * (1e5 / float(np.max(np.abs(a))))), dtype=np.int64)
         return Rec(arg, arg.astype(float))
+    if how in gen.NARROW_DTYPES:
+        return Rec(*gen.narrow_int(a, how))
     arg = gen.as_container({"as": how}, a)
     return Rec(arg, np.array(arg, dtype=float))
 
@@ -707,7 +712,7 @@ def _req_n(n, seed, tag):
 def mid_range(case, ctx):
     n, seed, dt = int(case["n"]), int(case["seed"]), case["dt"]
     ctx.nt(True)
-    how = (["f64"] * 3 + _MID_CONT)[(seed // 7) % 8]
+    how = (["f64"] * 2 + _MID_CONT + ["int16", "int32", "int16", "int8"])[(seed // 7) % 11]
     rec = _mid_container(_mid_record(n, seed, "walk" if seed % 5 == 0 else "burst"), how)
     cls = eqsig.AccSignal if seed % 2 else eqsig.Signal
     ctx.cls(gen.size_class(n), "as=" + how, cls.__name__, "npts-odd" if n % 2 else "npts-even")
